@@ -63,9 +63,20 @@ func clip(s string, n int) string {
 	return s
 }
 
+// failFast: a run that has found violations and is slow (waits that only end at their bounds) stops before the next
+// scenario; what it found is on file.  The unchanged tree has no failing clause before the last scenario of c13.
+const failFast = 90 * time.Second
+
 func (o *out) scn(name string) int {
 	o.mu.Lock()
 	defer o.mu.Unlock()
+	o.c.Out.Flush() // whatever happens to the process, the finished scenarios are on file
+	if o.bad > 0 && time.Since(o.t0) > failFast {
+		o.c.Emit("info remaining scenarios (from %q on) skipped: %d clause evaluations failed and the run has taken %.0fs", name, o.bad, time.Since(o.t0).Seconds())
+		o.c.Out.Flush()
+		fmt.Fprintf(os.Stderr, "fail-fast: stopping before %q\n", name)
+		os.Exit(0)
+	}
 	o.n++
 	o.name = name
 	o.since = time.Now()
